@@ -249,6 +249,10 @@ pub struct Run {
     pub ndirs: u32,
     pub dead: bool,
     pub http: bool,
+    /// operations go through the real `xs` binary (XSV_CLI names it); implies `http` (the worker serves the API)
+    pub cli: bool,
+    /// the behaviour was cut short because the command line tool printed nothing after a successful call
+    pub lost: bool,
     pub tok_hash: HashMap<String, String>,
 }
 
@@ -283,6 +287,8 @@ impl Run {
             ndirs: 1,
             dead: false,
             http,
+            cli: http && std::env::var("XSV_CLI").map(|s| !s.is_empty()).unwrap_or(false),
+            lost: false,
             tok_hash: HashMap::new(),
         };
         r.start_worker();
@@ -306,7 +312,7 @@ impl Run {
                     self.topics_used.insert("xs.start".into());
                     let a = self.abs_frame(&f);
                     self.events.push(json!({"e": "append", "ctx": a["ctx"], "topic": a["topic"], "ttl": a["ttl"],
-                        "meta": a["meta"], "hash": a["hash"], "ok": true, "id": a["id"], "f": a, "status": 0}));
+                        "meta": a["meta"], "hash": a["hash"], "ok": true, "id": a["id"], "f": a, "status": 0, "via": "api", "front": true}));
                 }
                 true
             }
@@ -326,8 +332,49 @@ impl Run {
             self.events.push(json!({"e": "crash", "at": op}));
         } else if let Some(p) = r.get("panic") {
             self.events.push(json!({"e": "panic", "at": op, "msg": p}));
+        } else if r.get("lost").is_some() {
+            // the command line tool reported success and printed nothing (seen about once in 5000 `xs append` calls on
+            // a loaded machine: main() returns without flushing tokio's stdout): what was appended is not known, so
+            // the behaviour ends here - an observation outside the listed properties, counted, never a verdict
+            self.dead = true;
+            self.lost = true;
+            self.events.push(json!({"e": "cli_output_lost", "at": op}));
+            return json!({"dead": true});
         }
         r
+    }
+    /// how the operations reach the store
+    fn via(&self) -> &'static str {
+        if self.cli {
+            "cli"
+        } else if self.http {
+            "http"
+        } else {
+            "api"
+        }
+    }
+    /// C13 (C12 for the command line): the front end's answer is the store's answer in the same state. `req` is
+    /// repeated on the Store API (nothing runs in between: collector gated, virtual clock) and `key` compared.
+    fn faithful(&mut self, req: &Value, front: &Value, key: &str) -> bool {
+        if !self.http || self.dead {
+            return true;
+        }
+        let mut r2 = req.clone();
+        r2["direct"] = json!(true);
+        if r2["op"] == "read" {
+            // `GET /` is `Store::read`
+            r2["path"] = json!("stream");
+        }
+        let d = self.call(r2);
+        if Self::failed(&d) {
+            return true;
+        }
+        // (frames are compared as frames: an absent and a null field are the same frame)
+        let as_frame = |v: &Value| serde_json::from_value::<xs::store::Frame>(v.clone()).ok();
+        match (as_frame(&d[key]), as_frame(&front[key])) {
+            (Some(a), Some(b)) => a == b,
+            _ => d[key] == front[key],
+        }
     }
     fn failed(resp: &Value) -> bool {
         resp.get("dead").is_some() || resp.get("died").is_some() || resp.get("panic").is_some()
@@ -411,12 +458,29 @@ impl Run {
             .get(content)
             .map(|b| json!(base64::prelude::BASE64_STANDARD.encode(b)))
             .unwrap_or(Value::Null);
-        let resp = self.call(json!({"op": "append", "ctx": ctx_real, "topic": topic_s,
-            "ttl": ttl_str(ttl), "meta": meta_v, "content": content_v}));
+        let rq = json!({"op": "append", "ctx": ctx_real, "topic": topic_s,
+            "ttl": ttl_str(ttl), "meta": meta_v, "content": content_v});
+        let mut resp = self.call(rq.clone());
         if Self::failed(&resp) {
             let t = self.t;
             self.appended.entry(t).or_default().push(None);
             return;
+        }
+        let mut via = self.via();
+        if self.http && resp["ok"] != json!(true) {
+            // C13 (C12 for the command line): does the Store API refuse it too? If it accepts, the front end refused what
+            // the store takes: that refusal is the front end's, and the accepted append is the one that counts from here on
+            let mut r2 = rq.clone();
+            r2["direct"] = json!(true);
+            let d = self.call(r2);
+            if !Self::failed(&d) && d["ok"] == json!(true) {
+                self.events.push(json!({"e": "append", "ctx": idref(ctx_real), "topic": topic, "ttl": ttl, "meta": meta,
+                    "hash": content, "ok": false, "id": -2,
+                    "f": {"id": -2, "topic": topic, "ctx": idref(ctx_real), "ttl": ttl, "meta": meta, "hash": content},
+                    "status": resp["status"].as_i64().unwrap_or(0), "via": via, "front": false}));
+                resp = d;
+                via = "api";
+            }
         }
         self.note_id(ctx_real);
         self.topics_used.insert(topic.to_string());
@@ -452,7 +516,8 @@ impl Run {
             )
         };
         let mut ev = json!({"e": "append", "ctx": idref(ctx_real), "topic": topic, "ttl": ttl, "meta": meta,
-            "hash": content, "ok": ok, "id": idv, "f": fv, "status": resp["status"].as_i64().unwrap_or(0)});
+            "hash": content, "ok": ok, "id": idv, "f": fv, "status": resp["status"].as_i64().unwrap_or(0),
+            "via": via, "front": true});
         if let Some(p) = resp.get("panic") {
             ev["panic"] = p.clone();
         }
@@ -480,8 +545,13 @@ impl Run {
                 }
             }
         }
-        self.events
-            .push(json!({"e": "import", "f": a, "ok": ok, "status": resp["status"].as_i64().unwrap_or(0)}));
+        // C13: an import the front end reports as stored is in the store, exactly as sent
+        let same = !ok || {
+            let fr = json!({"frame": frame});
+            self.faithful(&json!({"op": "get", "id": frame["id"]}), &fr, "frame")
+        };
+        self.events.push(json!({"e": "import", "f": a, "ok": ok, "status": resp["status"].as_i64().unwrap_or(0),
+            "via": self.via(), "same": same}));
     }
 
     pub fn op_import(&mut self, id_real: &str, ctx_real: &str, topic: &str, ttl: &Value, meta: &str) {
@@ -500,8 +570,10 @@ impl Run {
             return;
         }
         self.note_id(id_real);
-        self.events
-            .push(json!({"e": "remove", "id": idref(id_real), "status": resp["status"].as_i64().unwrap_or(0)}));
+        // C13: after a remove through the front end the Store API does not find the frame any more
+        let same = self.faithful(&json!({"op": "get", "id": id_real}), &json!({"frame": null}), "frame");
+        self.events.push(json!({"e": "remove", "id": idref(id_real), "status": resp["status"].as_i64().unwrap_or(0),
+            "via": self.via(), "same": same}));
     }
 
     pub fn op_tick(&mut self, n: u64) {
@@ -519,10 +591,12 @@ impl Run {
     pub fn op_read(&mut self, path: &str, ctx: Option<&str>, last: Option<&str>, lim: Option<u64>) {
         // `tail` without `follow`: no history, no live side - the read is empty (streaming path / HTTP only)
         let tail = (path == "stream" || self.http) && self.rng.gen_range(0..12) == 0;
-        let resp = self.call(json!({"op": "read", "path": path, "ctx": ctx, "last": last, "limit": lim, "tail": tail}));
+        let rq = json!({"op": "read", "path": path, "ctx": ctx, "last": last, "limit": lim, "tail": tail});
+        let resp = self.call(rq.clone());
         if Self::failed(&resp) {
             return;
         }
+        let same = resp["status"] != json!(200) || self.faithful(&rq, &resp, "frames");
         let frames: Vec<Value> = resp["frames"].as_array().cloned().unwrap_or_default();
         let res: Vec<Value> = frames.iter().map(|f| self.abs_frame(f)).collect();
         if let Some(c) = ctx {
@@ -535,7 +609,7 @@ impl Run {
             "ctx": ctx.map(idref).unwrap_or(json!(-1)),
             "last": last.map(idref).unwrap_or(json!(-2)),
             "lim": lim.map(|x| json!(x)).unwrap_or(json!(-1)),
-            "res": res, "status": resp["status"].as_i64().unwrap_or(0), "tail": tail});
+            "res": res, "status": resp["status"].as_i64().unwrap_or(0), "tail": tail, "via": self.via(), "same": same});
         if let Some(p) = resp.get("panic") {
             ev["panic"] = p.clone();
         }
@@ -567,10 +641,12 @@ impl Run {
     }
 
     pub fn op_get(&mut self, id: &str) {
-        let resp = self.call(json!({"op": "get", "id": id}));
+        let rq = json!({"op": "get", "id": id});
+        let resp = self.call(rq.clone());
         if Self::failed(&resp) {
             return;
         }
+        let same = self.faithful(&rq, &resp, "frame");
         self.note_id(id);
         let res: Vec<Value> = if resp["frame"].is_null() {
             vec![]
@@ -578,7 +654,8 @@ impl Run {
             vec![self.abs_frame(&resp["frame"].clone())]
         };
         self.events
-            .push(json!({"e": "get", "id": idref(id), "res": res, "status": resp["status"].as_i64().unwrap_or(0)}));
+            .push(json!({"e": "get", "id": idref(id), "res": res, "status": resp["status"].as_i64().unwrap_or(0),
+                "via": self.via(), "same": same}));
     }
 
     pub fn op_head(&mut self, topic: &str, ctx: &str) {
@@ -586,10 +663,12 @@ impl Run {
             return; // a raw NUL cannot travel in a request line
         }
         let topic_s = self.fam.topics.get(topic).cloned().unwrap_or(topic.to_string());
-        let resp = self.call(json!({"op": "head", "topic": topic_s, "ctx": ctx}));
+        let rq = json!({"op": "head", "topic": topic_s, "ctx": ctx});
+        let resp = self.call(rq.clone());
         if Self::failed(&resp) {
             return;
         }
+        let same = self.faithful(&rq, &resp, "frame");
         self.note_id(ctx);
         let res: Vec<Value> = if resp["frame"].is_null() {
             vec![]
@@ -597,7 +676,7 @@ impl Run {
             vec![self.abs_frame(&resp["frame"].clone())]
         };
         self.events.push(json!({"e": "head", "topic": topic, "ctx": idref(ctx), "res": res,
-            "status": resp["status"].as_i64().unwrap_or(0)}));
+            "status": resp["status"].as_i64().unwrap_or(0), "via": self.via(), "same": same}));
     }
 
     fn abs_dump(&mut self, d: &Value) -> Value {
@@ -707,7 +786,7 @@ impl Run {
         let res: Vec<Value> = frames.iter().map(|f| self.abs_frame(f)).collect();
         self.events
             .push(json!({"e": "read", "path": "sync", "ctx": -1, "last": -2, "lim": -1, "res": res,
-                "status": resp["status"].as_i64().unwrap_or(0), "tail": false}));
+                "status": resp["status"].as_i64().unwrap_or(0), "tail": false, "via": self.via(), "same": true}));
         // contents
         let mut blobs: Vec<(String, Value)> = vec![];
         for f in &frames {
@@ -736,6 +815,9 @@ impl Run {
         for (h, c) in blobs {
             if c.is_string() {
                 let r = self.call(json!({"op": "cas_put", "content": c}));
+                if self.lost {
+                    return;
+                }
                 self.events.push(json!({"e": "cas", "what": "transfer: same hash in the target", "ok": r["hash"].as_str() == Some(&h)}));
             }
         }
@@ -752,6 +834,10 @@ impl Run {
             self.op_import_concrete(&f, None);
         }
         self.full_probe();
+        if self.lost {
+            // the behaviour ended inside the transfer (tool output lost): the target is incomplete by construction
+            return;
+        }
         self.events.push(json!({"e": "xfer_end"}));
         // usable contexts must be the same: try an append into each
         for c in self.ctxs.clone() {
@@ -817,16 +903,25 @@ impl Run {
         let pool: Vec<String> = std::iter::once(Self::zero()).chain(self.ctxs.iter().cloned()).collect();
         let ctx = pool[self.rng.gen_range(0..pool.len())].clone();
         let kind = self.rng.gen_range(0..10);
-        let head = kind < 5;
+        // through the command line nothing tells when the subscription exists, so only the streams that replay the
+        // history first (whatever is appended early is history, whatever is appended late is live) are probed there
+        let head = kind < 5 && !self.cli;
+        // follow from the beginning: the whole history, then what is appended while the stream is open
+        let hist_route = kind < 8 && !head && (self.cli || self.rng.gen_bool(0.5));
         // a limit inside the history, or just beyond it (so that live frames - arriving after some pulses - count)
         // the context's history as a plain read sees it right now
         let mut hist: u64 = 0;
-        if kind >= 8 {
+        let mut hist_max = String::new();
+        if kind >= 8 || hist_route {
             for _ in 0..4 {
                 self.op_read("sync", Some(ctx.as_str()), None, None);
                 if let Some(e) = self.events.last() {
                     if e["e"] == "read" && e["tail"] == json!(false) && e["status"] == json!(200) {
                         hist = e["res"].as_array().map(|a| a.len()).unwrap_or(0) as u64;
+                        hist_max = e["res"]
+                            .as_array()
+                            .and_then(|a| a.iter().filter_map(|f| f["id"].as_str()).max().map(String::from))
+                            .unwrap_or_default();
                         break;
                     }
                 }
@@ -849,10 +944,21 @@ impl Run {
         } else if lim > 0 {
             // history + live with a heartbeat and a limit: pulses are not counted, the stream ends after `lim`
             format!("/?follow=3&limit={lim}&context-id={ctx}")
+        } else if hist_route {
+            format!("/?follow=true&context-id={ctx}")
         } else {
             format!("/?follow=true&tail=true&context-id={ctx}")
         };
-        let r = self.call(json!({"op": "follow_open", "target": target}));
+        let mut open = json!({"op": "follow_open", "target": target});
+        if self.cli {
+            let d = self.dir.to_string_lossy().to_string();
+            open["cli_args"] = if lim > 0 {
+                json!(["cat", d, "--pulse", "3", "--limit", lim.to_string(), "--context", ctx])
+            } else {
+                json!(["cat", d, "--follow", "-c", ctx])
+            };
+        }
+        let r = self.call(open);
         if Self::failed(&r) || r["status"] != json!(0) {
             return;
         }
@@ -866,7 +972,9 @@ impl Run {
         let eph = json!({"k": "eph", "n": 0});
         for c in pool.iter().take(3) {
             let t = if self.rng.gen_bool(0.7) { topic } else { "tABC" };
-            let ttl = if lim == 0 && self.rng.gen_bool(0.3) { &eph } else { &forever };
+            // (an ephemeral frame broadcast while a history scan is running is known finding C03-ephemeral-dropped:
+            // ephemeral frames only where no history is replayed)
+            let ttl = if lim == 0 && !hist_route && self.rng.gen_bool(0.3) { &eph } else { &forever };
             self.op_append(c, t, ttl, "none", "none");
         }
         self.op_append(&ctx, topic, &forever, "m1", "b1");
@@ -888,8 +996,12 @@ impl Run {
         } else {
             (in_scope.iter().filter_map(|f| f["id"].as_str().and_then(|s| s.strip_prefix("ID:")).map(String::from)).collect(), 0)
         };
+        // (a history that holds an id above the ones just appended is known finding C03-future-dated-history-drops-live:
+        // the frames will not come, there is no point in waiting the long time that otherwise guards against a slow machine)
+        let future = !hist_max.is_empty()
+            && appended.iter().any(|f| f["ctx"] == idref(&ctx) && f["id"].as_str().map(|i| i < hist_max.as_str()).unwrap_or(false));
         let r = self.call(json!({"op": "follow_collect", "wait_ms": 150, "want_ids": want_ids, "want_count": want_count,
-            "cap_ms": 10_000}));
+            "cap_ms": if future { 500 } else { 10_000 }}));
         if Self::failed(&r) {
             return;
         }
@@ -899,7 +1011,7 @@ impl Run {
             .filter(|f| f["topic"] != "xs.threshold" && f["topic"] != "xs.pulse")
             .map(|f| self.abs_frame(f))
             .collect();
-        let route = if head { "head" } else if lim > 0 { "catlim" } else { "cat" };
+        let route = if head { "head" } else if lim > 0 { "catlim" } else if hist_route { "cathist" } else { "cat" };
         self.events.push(json!({"e": "followprobe", "route": route, "topic": topic, "lim": lim,
             "ctx": idref(&ctx), "res": res, "appended": appended, "status": r["status"]}));
     }
@@ -976,7 +1088,7 @@ impl Run {
         let frames: Vec<Value> = r["frames"].as_array().cloned().unwrap_or_default();
         let res: Vec<Value> = frames.iter().map(|f| self.abs_frame(f)).collect();
         self.events.push(json!({"e": "read", "path": "sync", "ctx": -1, "last": -2, "lim": -1, "res": res,
-            "status": r["status"].as_i64().unwrap_or(0), "tail": false}));
+            "status": r["status"].as_i64().unwrap_or(0), "tail": false, "via": self.via(), "same": true}));
         let mut hashes: Vec<String> = frames.iter().filter_map(|f| f["hash"].as_str().map(|x| x.to_string())).collect();
         hashes.sort();
         hashes.dedup();
